@@ -10,8 +10,9 @@ import json, os, shutil, tempfile, time, urllib.parse
 from vlib import *
 
 CAP = 256                       # lruFileHandlerCapacity (a Go const; cross-checked in run())
-FMTS = ["dkvp", "nidx", "jsonl", "csv", "json"]
-FMTN = {f: i for i, f in enumerate(FMTS)}
+FMTS = ["dkvp", "nidx", "jsonl", "csv", "json", "tsv", "xtab", "pprint"]
+FMTN = {"dkvp": 0, "nidx": 1, "jsonl": 2, "csv": 3, "json": 4, "tsv": 5, "xtab": 6}      # formats of the Coq model (pprint: oracle only)
+STATEFUL = ("csv", "tsv", "json", "xtab", "pprint")                                        # writers with stream state
 MODES = ["write", "append", "pipe"]
 MODEN = {m: i for i, m in enumerate(MODES)}
 STATELESS = {"dkvp", "nidx", "jsonl"}
@@ -31,6 +32,11 @@ def render_rec(fmt, rec, pad=0):
         return " ".join(v for _, v in rec) + "\n"
     if fmt == "csv":
         return ",".join([v for _, v in rec] + [""] * pad) + "\n"
+    if fmt == "tsv":
+        return "\t".join([v for _, v in rec] + [""] * pad) + "\n"
+    if fmt == "xtab":
+        w = max([1] + [len(k) for k, _ in rec])
+        return "".join(k + " " + " " * (w - len(k)) + v + "\n" for k, v in rec)
     if fmt == "jsonl":
         return ("{" + ", ".join(q(k) + ": " + q(v) for k, v in rec) + "}\n") if rec else "{}\n"
     if fmt == "json":
@@ -38,8 +44,34 @@ def render_rec(fmt, rec, pad=0):
     raise ValueError(fmt)
 
 
+def pprint_block(recs):
+    """record_writer_pprint.go writeHeterogenousListNonBarred, left-aligned (RightAlignNumericOutput is off by default)"""
+    widths = {}
+    for r in recs:
+        for k, v in r:
+            widths[k] = max(widths.get(k, 0), len(v) or 1, len(k))
+    if not any(recs):
+        return ""
+    def line(cells):
+        return "".join((c + "\n") if i == len(cells) - 1 else (c + " " * (widths[k] - len(c)) + " ") for i, (k, c) in enumerate(cells))
+    return line([(k, k) for k, _ in recs[0]]) + "".join(line([(k, v or "-") for k, v in r]) for r in recs)
+
+
 def single_doc(fmt, events):
     """what ONE writer produces for these events (('r', rec) | ('s', text)) from start to end of stream"""
+    if fmt == "pprint":
+        # records are held back in batches of equal key lists; a batch is printed when the keys change (followed by an empty
+        # line) and at end of stream; text goes to the stream at once (a manager never mixes the two kinds)
+        out, batch = [x for k, x in events if k == "s"], []
+        for r in [x for k, x in events if k == "r"]:
+            if batch and [k for k, _ in batch[0]] != [k for k, _ in r]:
+                b = pprint_block(batch)
+                out.append(b + ("\n" if b else ""))
+                batch = []
+            batch.append(r)
+        if batch:
+            out.append(pprint_block(batch))
+        return "".join(out)
     out, started, first = [], False, None
     for kind, x in events:
         if kind == "s":
@@ -48,11 +80,13 @@ def single_doc(fmt, events):
         if fmt == "json":
             out.append(",\n" if started else "[\n")
             out.append(render_rec(fmt, x))
-        elif fmt == "csv":
+        elif fmt in ("csv", "tsv"):
             if not started:
                 first = [k for k, _ in x]
-                out.append(",".join(first) + "\n")
+                out.append((", " if False else ("," if fmt == "csv" else "\t")).join(first) + "\n")
             out.append(render_rec(fmt, x, max(0, len(first) - len(x))))
+        elif fmt == "xtab":
+            out.append(("\n" if started else "") + render_rec(fmt, x))
         else:
             out.append(render_rec(fmt, x))
         started = True
@@ -126,7 +160,7 @@ def segmented_docs(fmt, text, recs):
             if text.startswith(d) and go(text[len(d):], recs[j:], nseg + 1):
                 return True
         return False
-    return len(recs) <= 12 and go(text, recs, 0)
+    return len(recs) <= 200 and go(text, recs, 0)
 
 
 def doc_shape(fmt, text, events):
@@ -180,6 +214,32 @@ def gen_history(ctx, pattern, ntargets, fmt, mode, strings=False):
         first = list(names)
         rng.shuffle(first)                     # every target once (so the distinct count really exceeds the capacity) ...
         order = first + [names[min(ntargets - 1, int(rng.paretovariate(0.6)) - 1)] if rng.random() < 0.5 else rng.choice(names) for _ in range(n)]
+    elif pattern == "victim":
+        # discriminates the eviction victim: fill the cache, then repeatedly (a) touch some open targets (this reorders recency
+        # WITHOUT changing insertion order or access counts much), (b) open a new target (exactly one eviction), (c) write to
+        # the predicted LRU victim's neighbours and to recently touched ones.  With a header/bracket/separator format the files
+        # show exactly which handler was closed: LRU, FIFO, MRU or random-victim policies all give different bytes.
+        from collections import OrderedDict
+        lru = OrderedDict()
+        spare = list(names[CAP:])
+        def use(t):
+            order.append(t)
+            if t in lru:
+                lru.move_to_end(t)
+            else:
+                if len(lru) >= CAP:
+                    lru.popitem(last=False)
+                lru[t] = 1
+        for t in names[:CAP]:
+            use(t)
+        while spare:
+            opened = list(lru)
+            for t in rng.sample(opened[:12], 4) + rng.sample(opened, 3):      # touch: some of the oldest, some anywhere
+                use(t)
+            oldest = list(lru)[:3]
+            use(spare.pop())                                                    # one eviction: list(lru)[0] under true LRU
+            for t in [oldest[0], oldest[1], rng.choice(opened[:6])]:            # the victim (miss), the next-oldest (hit), an old one
+                use(t)
     elif pattern == "small":
         order = [rng.choice(names) for _ in range(rng.randint(1, 24))]
     ops = []
@@ -188,7 +248,7 @@ def gen_history(ctx, pattern, ntargets, fmt, mode, strings=False):
             ops.append((t, 1, rand_val(rng, 0, 6) + ("\n" if rng.random() < 0.8 else "")))
         else:
             ks = keys[t]
-            if fmt == "csv" and pattern == "small" and rng.random() < 0.15 and len(ks) > 1:
+            if fmt in ("csv", "tsv") and pattern == "small" and rng.random() < 0.15 and len(ks) > 1:
                 ks = ks[:rng.randint(1, len(ks) - 1)]      # fewer fields than the header: the writer fills with empties
             ops.append((t, 0, mk_rec(rng, ks, i)))
     return ops
@@ -340,7 +400,7 @@ def oracle_case(ctx, c, how):
         base = before.get(t, "") if mode == "append" else ""
         text = c["after"].get(t, "")
         evs = ev.get(t, [])
-        ok_shape = (fmt in ("csv", "json") and text.startswith(base) and evs and all(k == "r" for k, _ in evs)
+        ok_shape = (fmt in STATEFUL and text.startswith(base) and evs and all(k == "r" for k, _ in evs)
                     and segmented_docs(fmt, text[len(base):], [x for _, x in evs]))
         if not ok_shape:
             shape_only, worst = False, t
@@ -352,7 +412,7 @@ def oracle_case(ctx, c, how):
     rep = {"how": how, "mode": mode, "fmt": fmt, "distinct_targets": distinct, "ops": len(ops), "pattern": c.get("pattern"),
            "target": t, "observed": c["after"].get(t, "")[:600], "expected": exp[t][:600],
            "headers_in_file": hdrs, "bracket_pairs_in_file": brs, "targets_wrong": len(bad), "input": brief(c)}
-    if shape_only and distinct > CAP and fmt in ("csv", "json") and mode != "pipe":
+    if shape_only and distinct > CAP and fmt in STATEFUL and mode != "pipe":
         rep["class"] = WCLASS
         seen = ctx.cov.setdefault("finding_witnesses", {})
         seen["lru-ops:" + fmt] = seen.get("lru-ops:" + fmt, 0) + 1
@@ -423,7 +483,7 @@ def e2e(ctx, scratch):
                "fmt": fmt, "targets": len(expect), "wrong_files": wrong[:5], "unexpected_files": extra[:5], "main_stream_wrong": bool(main_bad),
                "e2e": name}
         cls = "fanout-content"
-        if ok and wrong and not extra and not main_bad and len(expect) > CAP and fmt in ("csv", "json"):
+        if ok and wrong and not extra and not main_bad and len(expect) > CAP and fmt in STATEFUL:
             shape_only = True
             for t in wrong:
                 base = before.get(t, "") if mode == "append" else ""
@@ -456,7 +516,11 @@ def e2e(ctx, scratch):
         os.makedirs(d)
         return d
 
-    oflag = {"dkvp": "--odkvp", "nidx": "--onidx", "jsonl": "--ojsonl", "csv": "--ocsv", "json": "--ojson"}
+    oflag = {"dkvp": "--odkvp", "nidx": "--onidx", "jsonl": "--ojsonl", "csv": "--ocsv", "json": "--ojson", "tsv": "--otsv", "xtab": "--oxtab",
+             "pprint": "--opprint"}
+    # quick tier: beyond the capacity each format gets ONE kind of fan-out (all kinds x all formats with few targets)
+    big_kind = {"csv": "split-g", "json": "tee-redirect", "xtab": "split-g", "pprint": "tee-redirect", "dkvp": "emit-redirect", "tsv": "emit-redirect",
+                "jsonl": "split-g", "nidx": "print-redirect"}
     evs = lambda rs: [("r", r) for r in rs]
     sizes = [3, CAP + 44] if ctx.tier == "quick" else [3, 40, CAP + 1, CAP + 44, 600]
     k = 0
@@ -467,24 +531,24 @@ def e2e(ctx, scratch):
             for r in recs:
                 groups.setdefault(r[0][1], []).append(r)
             main_dkvp = dkvp(recs).decode()
-            # --- split -g
-            k += 1
-            d = fresh("e%d" % k)
-            pre = rng.choice(["split", "out", "p q"])
-            check("split-g", fmt, [oflag[fmt], "split", "-g", "k", "--prefix", pre], recs,
-                  {f"{pre}_{g}.{fmt}": evs(rs) for g, rs in groups.items()}, d, main_expect="")
-            # --- put -q tee > computed name
-            k += 1
-            d = fresh("e%d" % k)
-            check("tee-redirect", fmt, [oflag[fmt], "put", "-q", 'tee > $k.".dat", $*'], recs,
-                  {g + ".dat": evs(rs) for g, rs in groups.items()}, d, main_expect="")
-            if nk <= 10 or fmt in ("dkvp", "csv"):
-                # --- emit > (lashed map of the record)
+            want = lambda kind: nk <= 10 or ctx.tier == "thorough" or big_kind[fmt] == kind
+            if want("split-g"):
+                k += 1
+                d = fresh("e%d" % k)
+                pre = rng.choice(["split", "out", "p q"])
+                check("split-g", fmt, [oflag[fmt], "split", "-g", "k", "--prefix", pre], recs,
+                      {f"{pre}_{g}.{fmt}": evs(rs) for g, rs in groups.items()}, d, main_expect="")
+            if want("tee-redirect"):
+                k += 1
+                d = fresh("e%d" % k)
+                check("tee-redirect", fmt, [oflag[fmt], "put", "-q", 'tee > $k.".dat", $*'], recs,
+                      {g + ".dat": evs(rs) for g, rs in groups.items()}, d, main_expect="")
+            if want("emit-redirect"):
                 k += 1
                 d = fresh("e%d" % k)
                 check("emit-redirect", fmt, [oflag[fmt], "put", "-q", 'emit > "em_".$k.".out", mapsum($*, {})'], recs,
                       {"em_" + g + ".out": evs(rs) for g, rs in groups.items()}, d, main_expect="")
-                # --- print > : text lines, any output format
+            if want("print-redirect"):
                 k += 1
                 d = fresh("e%d" % k)
                 check("print-redirect", fmt, [oflag[fmt], "put", "-q", 'print > $k.".txt", $i.":".$v'], recs,
@@ -592,7 +656,7 @@ def tee_then_head(ctx, scratch):
 def build_cases(ctx):
     rng = ctx.rng
     cases = []
-    nsmall = 160 if ctx.tier == "quick" else 3000
+    nsmall = 120 if ctx.tier == "quick" else 3000
     for _ in range(nsmall):
         fmt, mode = rng.choice(FMTS), rng.choice(MODES if rng.random() < 0.12 else MODES[:2])
         strings = rng.random() < 0.2
@@ -602,21 +666,28 @@ def build_cases(ctx):
         ctx.dist("history:small")
     big = []
     pats = ["twice", "round-robin", "revisit-after-evict", "long-gap", "random"]
-    for fmt in FMTS:
-        for pat in pats:
-            for mode in (["write", "append"] if (ctx.tier == "thorough" or pat in ("twice", "random")) else [rng.choice(["write", "append"])]):
-                nt = {"round-robin": CAP + 1, "revisit-after-evict": CAP + rng.randint(20, 60)}.get(pat, rng.randint(CAP + 1, 600 if ctx.tier == "thorough" else 380))
-                strings = (pat == "random" and mode == "append")
+    # quick tier: every pattern with 3 formats, every format with >= 1 pattern (rotating assignment); thorough: the full product
+    for pi, pat in enumerate(pats):
+        fmts = FMTS if ctx.tier == "thorough" else [FMTS[(pi * 3 + j) % len(FMTS)] for j in range(3)]
+        for fmt in fmts:
+            for mode in (["write", "append"] if ctx.tier == "thorough" else [rng.choice(["write", "append"])]):
+                nt = {"round-robin": CAP + 1, "revisit-after-evict": CAP + rng.randint(20, 60)}.get(pat, rng.randint(CAP + 1, 600 if ctx.tier == "thorough" else 330))
+                strings = (pat == "random" and mode == "append" and rng.random() < 0.5)
                 ops = gen_history(ctx, pat, nt, fmt, mode, strings)
                 big.append({"mode": mode, "fmt": fmt, "ops": ops, "before": gen_before(ctx, ops, nt), "pattern": pat})
                 ctx.dist("history:" + pat)
+    # the eviction victim must be the LEAST RECENTLY USED handler (C20_open_set_is_most_recently_used): stateful formats show it
+    for fmt in (["csv", "json", "xtab"] if ctx.tier == "quick" else ["csv", "tsv", "json", "xtab", "pprint"]):
+        ops = gen_history(ctx, "victim", CAP + rng.randint(12, 20), fmt, "write")
+        big.append({"mode": "write", "fmt": fmt, "ops": ops, "before": {}, "pattern": "victim"})
+        ctx.dist("history:victim")
     # exactly at capacity: 256 targets twice (no eviction: one document for every format)
-    for fmt in FMTS:
+    for fmt in (["csv", "json", "xtab", "pprint"] if ctx.tier == "quick" else FMTS):
         ops = gen_history(ctx, "twice", CAP, fmt, "write")
         big.append({"mode": "write", "fmt": fmt, "ops": ops, "before": {}, "pattern": "at-capacity"})
         ctx.dist("history:at-capacity")
     # pipes are never evicted: > capacity distinct commands, every format keeps one document
-    for fmt in (["csv", "json"] if ctx.tier == "quick" else FMTS):
+    for fmt in (["csv"] if ctx.tier == "quick" else FMTS):
         ops = gen_history(ctx, "twice", CAP + 20, fmt, "pipe")
         big.append({"mode": "pipe", "fmt": fmt, "ops": ops, "before": {}, "pattern": "pipe-beyond-capacity"})
         ctx.dist("history:pipe-beyond-capacity")
@@ -626,7 +697,8 @@ def build_cases(ctx):
 def run(ctx):
     ctx.cov["rule"] = ("op histories (target, record|text) through the real MultiOutputHandlerManager at its real capacity 256: 1-6 targets random, and "
                        "257-600 targets with patterns twice / round-robin over c+1 / revisit-just-evicted / long-gap / pareto-random / exactly-at-capacity / "
-                       "pipes beyond capacity; x {dkvp,nidx,jsonl,csv,json} x {>,>>,|}; pre-existing files; CSV records shorter than the header; one kind "
+                       "pipes beyond capacity / victim-discriminating (touch old handlers, open one new target, write to the LRU victim and its neighbours); "
+                       "x {dkvp,nidx,jsonl,csv,json,tsv,xtab (Coq model), pprint (oracle only)} x {>,>>,|}; pre-existing files; CSV records shorter than the header; one kind "
                        "of event per manager (records for tee/emit, text for print/dump) as in Miller; values over [A-Za-z0-9_.-] (codecs are C01). "
                        "Compared: bytes of every touched or pre-existing file vs Model.render (Model.final ...) under vm_compute. Oracle: file == the one "
                        "document a single writer produces for the routed sub-sequence. End-to-end: tee, split -n/-m/-g/-a/-v/-e/--prefix/--suffix/--folder, "
@@ -668,7 +740,8 @@ def run(ctx):
         ctx.violation({"broken": why}, found_input=False)
         return
     # big histories first so that the parallel shards are balanced
-    order = sorted(range(len(cases)), key=lambda i: -len(cases[i]["ops"]))
+    order = sorted([i for i in range(len(cases)) if cases[i]["fmt"] in FMTN], key=lambda i: -len(cases[i]["ops"]))
+    ctx.cov["oracle_only_histories(pprint)"] = len(cases) - len(order)
     nshards = max(1, int(os.environ.get("VERIF_JOBS", "2")))      # parallel coqc processes
     order = [i for r in range(nshards) for i in order[r::nshards]]
     per = (len(order) + nshards - 1) // nshards
